@@ -920,8 +920,171 @@ def r6_append_position(L, repo):
     L.ob("C15.R6", F, "DATADumpFile", "writes to a capture file object from outside the class", 0, n_ext, n_ext == 0)
 
 
+class _FileModel:
+    """The checker's model of a binary random-access file (position, read at most n, seek with whence, write at the
+    position): what the capture object does to its file is replayed on it."""
+
+    def __init__(self, data):
+        self.b, self.pos = bytearray(data), 0
+
+    def read(self, a):
+        n = a[0] if a else -1
+        r = bytes(self.b[self.pos:] if n is None or n < 0 else self.b[self.pos:self.pos + n])
+        self.pos += len(r)
+        return r
+
+    def seek(self, a):
+        off, wh = a[0], (a[1] if len(a) > 1 else 0)
+        self.pos = off if wh == 0 else self.pos + off if wh == 1 else len(self.b) + off
+        return self.pos
+
+    def tell(self, a):
+        return self.pos
+
+    def write(self, a):
+        data = bytes(a[0])
+        self.b[self.pos:self.pos + len(data)] = data
+        self.pos += len(data)
+        return len(data)
+
+
+def r7_histories(L, repo):
+    """R7 (whatever was stored is returned - for every HISTORY of calls on one capture object): DATADumpFile's public
+    methods are folded in sequence on ONE object state (constructor included; attributes persist between the calls) over
+    the checker's file model holding three records (Tx, Rx, Tx; the last variant truncated inside its body): full read
+    twice, random access then full read, skip / count windows then full read, a skip past the end then full read, append
+    after a read then full read.  Every call must return exactly the records the file holds at that moment, selected by
+    its arguments - a remembered end-of-file, index or offset that one of the calls forgets to invalidate shows up as a
+    later call returning something else."""
+    from consteval import Opaque
+    ci = repo.need_class("data_dump", "DATADumpFile")
+    recs = [(b"\x01", b"abc"), (b"\x02", b"z"), (b"\x01", b"xy")]
+    tag_cls = {}
+    for nm, v in (("TAG_TxMsg", "Tx"), ("TAG_RxMsg", "Rx")):
+        try:
+            tag_cls[bytes(Ev(repo, ci.mod, self_cls=ci).class_attr(ci, nm))] = v
+        except (Unknown, Raised, TypeError):
+            raise AnalysisError("DATADump.%s does not fold" % nm)
+
+    def blob(rs):
+        return b"".join(t + struct.pack(">H", len(p)) + p for t, p in rs)
+
+    def want_of(rs, skip=None, count=None):
+        out = [(tag_cls.get(t, "?"), p) for t, p in rs]
+        if skip is not None:
+            if skip > len(out):
+                return False
+            out = out[skip:]
+        if count is not None:
+            out = out[:count]
+        return out
+    NEW = (b"\x02", b"new!")
+    histories = [
+        ("full read twice", [("parse_all", {}), ("parse_all", {})]),
+        ("random access, then full read", [("parse_msg", {"idx": 1}), ("parse_all", {}), ("parse_msg", {"idx": 0})]),
+        ("count window, then full read", [("parse_all", {"count": 1}), ("parse_all", {}), ("parse_all", {"skip": 1, "count": 1})]),
+        ("skip to the end and past it, then full read", [("parse_all", {"skip": 3}), ("parse_all", {"skip": 4}), ("parse_all", {})]),
+        ("index past the end, then first record", [("parse_msg", {"idx": 5}), ("parse_msg", {"idx": 0}), ("parse_all", {})]),
+        ("append after a full read, then full read", [("parse_all", {}), ("append_msg", {"msg": "NEW"}), ("parse_all", {}), ("parse_msg", {"idx": 3})]),
+    ]
+    n = 0
+    for trunc in (0, 1):
+        data = blob(recs)[:len(blob(recs)) - trunc]
+        held0 = recs if not trunc else recs[:2]
+        for title, hist in histories:
+            if trunc:
+                # a record cut inside its body still has a complete header: whether it counts for skip / index past the
+                # end, and what an append behind it means, is not specified - those steps are left out
+                if any(m == "append_msg" for m, _k in hist):
+                    continue
+                hist = [(m, k) for m, k in hist if not (k.get("skip", 0) > len(held0) or k.get("idx", 0) > len(held0))]
+            f = _FileModel(data)
+            held = list(held0)
+            parsed = {}
+            made = []
+            e = Ev(repo, ci.mod, env={}, self_cls=ci)
+            e.ignore_calls = ("log.", "logging.")
+
+            def mk(kind, e=e, parsed=parsed, made=made):
+                def h(a, kw=None):
+                    name = "%s#%d" % (kind, len(made))
+                    made.append(name)
+
+                    def parse(args, nm=name):
+                        parsed[nm] = bytes(args[0])
+                    e.hooks[name + ".parse_msg"] = parse
+                    return Opaque(name)
+                return h
+
+            def dump(a):
+                return NEW[0] + struct.pack(">H", len(NEW[1])) + NEW[1]
+            e.hooks = {"self.f.read": f.read, "self.f.seek": f.seek, "self.f.tell": f.tell, "self.f.write": f.write,
+                       "self.f.flush": lambda a: None, "TxMsg": mk("Tx"), "RxMsg": mk("Rx"), "self.dump_msg": dump}
+
+            def call(meth, kw):
+                c, fd = repo.find_method(ci, meth)
+                if fd is None:
+                    raise AnalysisError("DATADumpFile.%s vanished" % meth)
+                a_ = fd.args
+                dflt = dict(zip([p.arg for p in a_.args[len(a_.args) - len(a_.defaults):]], a_.defaults))
+                bound = [("self", "<self>")]
+                for p in a_.args[1:]:
+                    if p.arg in kw:
+                        bound.append((p.arg, Opaque("NEW") if kw[p.arg] == "NEW" else kw[p.arg]))
+                    elif p.arg in dflt:
+                        bound.append((p.arg, e.ev(dflt[p.arg])))
+                    else:
+                        raise AnalysisError("DATADumpFile.%s: parameter %s is not part of the documented interface" % (meth, p.arg))
+                return e.call_func(fd, c.mod, bound, self_cls=ci, writeback=True)
+
+            def show(r):
+                if isinstance(r, list):
+                    return [(x.text.split("#")[0], parsed.get(x.text)) if isinstance(x, Opaque) else x for x in r]
+                if isinstance(r, Opaque):
+                    return (r.text.split("#")[0], parsed.get(r.text))
+                return r
+            try:
+                c0, init = repo.find_method(ci, "__init__")
+                if init is not None:
+                    try:
+                        e.call_func(init, c0.mod, [("self", "<self>"), (params(init)[1], Opaque("the capture file"))], self_cls=ci, writeback=True)
+                    except (Unknown, Raised):
+                        # the constructor's choice between a path and a file object leaves the evaluator's vocabulary: take
+                        # over the constant initial values it stores (flags, counters, empty caches)
+                        for st_ in ast.walk(init):
+                            if isinstance(st_, ast.Assign) and len(st_.targets) == 1 and canon(st_.targets[0]).startswith("self.") \
+                                    and isinstance(st_.value, (ast.Constant, ast.List, ast.Dict, ast.Tuple)):
+                                try:
+                                    e.env[canon(st_.targets[0])] = e.ev(st_.value)
+                                except (Unknown, Raised):
+                                    pass
+                    e.env["self.f"] = Opaque("the capture file")
+                for i, (meth, kw) in enumerate(hist):
+                    got = show(call(meth, kw))
+                    if meth == "append_msg":
+                        held.append(NEW)
+                        want = None
+                        L.require("C15.R7", F, "DATADumpFile", "%s%s - step %d %s: the file holds the stored records followed by the new one" % (
+                            title, " [last record truncated]" if trunc else "", i + 1, meth),
+                            blob(held0) + blob([NEW]) if not trunc else None, bytes(f.b) if not trunc else None)
+                        continue
+                    if meth == "parse_msg":
+                        w = want_of(held)
+                        want = w[kw["idx"]] if kw["idx"] < len(w) else None
+                    else:
+                        want = want_of(held, kw.get("skip"), kw.get("count"))
+                    n += 1
+                    L.require("C15.R7", F, "DATADumpFile", "%s%s - step %d %s(%s) returns the records the file holds, selected by its arguments" % (
+                        title, " [last record truncated]" if trunc else "", i + 1, meth, ", ".join("%s=%s" % kv for kv in sorted(kw.items()))),
+                        want, got)
+            except (Unknown, Raised) as ex:
+                raise AnalysisError("DATADumpFile does not fold on the history `%s`: %s" % (title, ex))
+    L.floor("C15.R7", "calls folded in histories", n, 25)
+
+
 def run(L, tier):
     repo = Repo(L.repo)
+    L.stage(r7_histories, L, repo)
     hl = L.stage(r1_framing, L, repo)
     L.stage(r2_short_read, L, repo)
     L.stage(r3_skip_count, L, repo, hl)
